@@ -133,12 +133,16 @@ Definition d_nop (s : sx) : option nop :=
   match s with
   | SL [SZ 0; v] => option_map NObserve (dF v)
   | SL [SZ 1] => Some NWrite
+  | SL [SZ 2] => Some NFire
+  | SL [SZ 3; SZ d] => Some (NAdvance d)
   | _ => None
   end.
 Definition d_tcfg (s : sx) : option NativeHist.config :=
   match s with
   | SL [SZ sc; zt; SZ mb; mz] =>
       match dF zt, dF mz with Some zt, Some mz => Some (NativeHist.mkConfig sc zt mb mz 0 (-1) 0) | _, _ => None end
+  | SL [SZ sc; zt; SZ mb; mz; SZ mr] =>
+      match dF zt, dF mz with Some zt, Some mz => Some (NativeHist.mkConfig sc zt mb mz mr (-1) 0) | _, _ => None end
   | _ => None
   end.
 Definition texpo := (Z * f64 * Z * Z * f64 * list (Z * Z) * list (Z * Z))%type.
